@@ -6,7 +6,7 @@ LEVEL = "exploration"
 RUNS = {"quick": 3000, "thorough": 100000}
 BUDGET_S = {"quick": 50, "thorough": 840}
 CHUNK = 50
-RULE = ("One evaluation = one seeded history with composite steps status -> run --dry-run -> run from the same state (three-way agreement inside the cone), `gwf status` with every combination of -s/--endpoints/patterns/-f default|summary compared to the restriction of the full table computed with the harness' own filter semantics (including empty restrictions), and purity snapshots (all project files content+mtime, parsed .gwf/*.json, scheduler mutation journal) around status and dry-run. Non-trivial = at least one of these comparisons ran.")
+RULE = ("One evaluation = one seeded history with composite steps status -> run --dry-run -> run from the same state (three-way agreement inside the cone), `gwf status` with every combination of -s/--endpoints/patterns/-f default|summary compared to the restriction of the full table computed with the harness' own filter semantics (including empty restrictions), and purity snapshots (all project files incl. logs of renamed/removed targets: content+mtime; parsed .gwf/*.json; scheduler mutation journal) around status and dry-run; targets are renamed, removed and added along the way. Non-trivial = at least one of these comparisons ran.")
 PROFILE = dict(
     nontrivial_probes=['purity_checks', 'status_dryrun_run_triples', 'filtered_status_checks'],
     backends=["slurm", "slurm", "sge", "lsf", "local"],
